@@ -124,6 +124,12 @@ def tupleOf (t : String) : Option (List (Option Nat)) :=
 
 def optArg (toks : List String) (i : Nat) : Option Arg := (toks[i]?).map argOf
 
+/-- the bit-index argument of buffer/bit*: an integer token is a number that is integral and within `int64_t` -/
+def bitArgOf (t : String) : BitArg :=
+  match t.toInt? with
+  | some n => if -9223372036854775808 ≤ n ∧ n ≤ 9223372036854775807 then .idx n else .bad
+  | none => .bad
+
 def bytesOfTok (t : String) : Option (List Nat) :=
   match t.toList with
   | 's' :: rest => some (rest.map (·.toNat))
@@ -381,19 +387,19 @@ def stepOp (s : St) (toks : List String) : St × String :=
       | "bpushbyte", xs => setB (b.pushByteArgs (bargs xs))
       | "bpushstr", xs => setB (b.pushStringArgs (bargs xs))
       | "bpushword", xs =>
-        let rec goW (b : Buf) : List String → Buf × Outcome Nat
-          | [] => (b, .ok)
-          | t :: ts => match t.toInt? with
-            | some n =>
-              if 0 ≤ n ∧ n < 4294967296 then
-                let w := n.toNat
-                let r := b.extra 4
-                match r.2 with
-                | .ok => goW { r.1 with cells := writeAt r.1.cells b.count [some (w % 256), some (w / 256 % 256), some (w / 65536 % 256), some (w / 16777216 % 256)], count := b.count + 4 } ts
-                | o => (r.1, o)
-              else (b, .err)
-            | none => (b, .err)
-        setB (goW b xs)
+        setB (b.pushWordArgs (xs.map (fun t => match t.toInt? with
+          | some n => if 0 ≤ n ∧ n < 4294967296 then WArg.word n.toNat else WArg.bad
+          | none => WArg.bad)))
+      | "bbitset", [x] => setB (b.bitSet (bitArgOf x))
+      | "bbitclear", [x] => setB (b.bitClear (bitArgOf x))
+      | "bbittoggle", [x] => setB (b.bitToggle (bitArgOf x))
+      | "bbit", [x] => (s, match b.bitGet (bitArgOf x) with
+          | .num 1 => "true"
+          | .num _ => "false"
+          | o => outStr prByte o)
+      | "bfrombytes", xs => match Buf.fromBytes (xs.map argOf) with
+        | some b' => ({ s with B := s.B.setIfInBounds r b' }, "ok")
+        | none => (s, "err")
       | "bpushat", i :: xs => setB (b.pushAt (argOf i) (bargs xs))
       | "bpopn", [n] => setB (b.popn (argOf n))
       | "bfill", [] => setB (b.fill none)
